@@ -77,6 +77,11 @@ void adapter_exec(Ev *ev)
         }
     } else if (ev_is(ev, "put")) {
         if (ty == 8) octet_ring_put(&r8, (uint8_t)ev->a[0]); else u32_ring_put(&r32, (uint32_t)ev->a[0]);
+    } else if (ev_is(ev, "fill")) {
+        for (long long i = 0; i < ev->a[0]; i++) {
+            long long x = (ev->a[1] + i) % 251;
+            if (ty == 8) octet_ring_put(&r8, (uint8_t)x); else u32_ring_put(&r32, (uint32_t)x);
+        }
     } else if (ev_is(ev, "get")) {
         ret = ty == 8 ? (long long)octet_ring_get(&r8) : (long long)u32_ring_get(&r32);
     } else if (ev_is(ev, "clear")) {
